@@ -1,4 +1,5 @@
 """C19 — float angles are approximated within tolerance by encodable rotations."""
+import json
 import math
 
 from check import Result
@@ -9,7 +10,7 @@ TARGETS = [M]
 THEOREMS = [(M, "NQ.C19." + n) for n in [
     "step_valid", "choice_allowed", "progress", "expand_isSome", "expand_run", "sum_inv", "run_steps",
     "simplify_sound", "fields_fit", "finish_keeps_all", "result_within", "result_within_radians",
-    "spec_within", "accepts_sound", "float_error_bound", "result_within_float", "emitted_operands", "emitted_within", "rotation_pair", "rotation_sum"]]
+    "spec_within", "accepts_sound", "float_error_bound", "result_within_float", "emitted_operands", "emitted_within", "emitted_seq_operands", "emitted_seq_within", "rotation_pair", "rotation_sum"]]
 TRANSLATORS = []
 LEVEL_TEXT = (
     "Lean theorems over exact dyadic values (every double is one) read in any ordered field: for EVERY run of the "
@@ -46,6 +47,8 @@ ASSUMPTIONS = [
     "result_within_float, re-checked with exact rationals on every case",
     "tolerances in [1e-9, 1e-1] as in the property (theorem needs tol/pi >= 2^-247)",
     "NaN and infinities are outside the property (the real code returns [] for them)",
+    "a sequence of rotation calls emits the concatenation of the per-call steps (emitted_seq_operands); tied by the "
+    "angle.sequence stream (2-4 calls, same/different axes, explicit (n, d) and float angles, other qubits in between)",
     "angles of other numeric types (np.float16/32/64, int, np.int32/64, Fraction, bool) are judged on the double they "
     "denote; returned lists must not be shared between calls (aliasing stream)",
 ]
@@ -243,6 +246,45 @@ def run(ctx):
         if bad:
             res.failures.append({"what": "%s angle: %s" % (label, bad), "kf": None,
                                  "input": {**inp, "returned" if where == "toolbox" else "emitted": [list(p) for p in rots]}})
+    # ---- SEQUENCES of rotation calls on one qubit (same / different axes, float angles and explicit (n, d), equal
+    # d >= 8 with large numerators, other qubits' gates in between): the emitted steps of a sequence are the
+    # CONCATENATION of the per-call steps (model: emitted_seq_operands / emitted_seq_within), and the total rotation of
+    # every maximal same-axis run is the sum of the requested angles within the summed tolerance
+    sb = H.SeqBuilder()
+    vqs = [q.qubit_id for q in sb.qs]
+    seqs = [[("rot", 0, "Z", {"angle": 129 * math.pi / 256}), ("rot", 0, "Z", {"angle": 129 * math.pi / 256})],
+            [("rot", 0, "Y", {"angle": 0.3}), ("rot", 0, "Y", {"angle": 201 * math.pi / 1024}),
+             ("rot", 0, "Y", {"angle": 101 * math.pi / 1024})],
+            [("rot", 0, "X", {"n": 200, "d": 8}), ("rot", 0, "X", {"n": 200, "d": 8})],
+            [("rot", 0, "X", {"n": 255, "d": 9}), ("gate", 1, "H"), ("rot", 0, "X", {"n": 255, "d": 9})],
+            [("rot", 0, "X", {"n": 3, "d": 2}), ("rot", 0, "Z", {"n": 3, "d": 2}), ("rot", 0, "X", {"n": 3, "d": 2})]]
+    seqs += [H.gen_rotation_sequence(rng) for _ in range(6000 if ctx.thorough else 900)]
+    for calls in seqs:
+        res.evaluations += 1
+        res.count("rotation-sequences")
+        kind, em = sb.run(calls)
+        inp = {"calls": [[c[0], "q%d" % c[1], c[2]] + ([c[3]] if c[0] == "rot" else []) for c in calls]}
+        if kind == "raise":
+            res.failures.append({"what": "a sequence of rotation calls raises %s" % em, "kf": None, "input": inp})
+            continue
+        res.nontrivial.add(("seq", json.dumps(inp, sort_keys=True, default=str)))
+        inp["emitted"] = [list(e) for e in em]
+        # tie: emitted rotation steps per qubit = concatenation of the per-call steps
+        for qi, vq in enumerate(vqs):
+            expect = []
+            for c in calls:
+                if c[0] == "rot" and c[1] == qi:
+                    if "angle" in c[3]:
+                        _, sp = H.real_spec(c[3]["angle"], tol0)
+                        expect += [("XYZ".index(c[2]), n, d) for n, d in sp]
+                    else:
+                        expect.append(("XYZ".index(c[2]), c[3]["n"], c[3]["d"]))
+            got = [(e[2], e[3], e[4]) for e in em if e[0] == "rot" and e[1] == vq]
+            if got != expect:
+                res.disagreements.append({"stream": "angle.sequence (emitted steps = concatenation of the per-call steps)",
+                                          "input": inp, "model": [list(x) for x in expect], "code": [list(x) for x in got]})
+        for b in H.check_rotation_sequence(calls, em, vqs, tol0):
+            res.failures.append({"what": "sequence of rotation calls: " + b, "kf": None, "input": inp})
     # ---- aliasing of returned objects: scribble over a returned list, call again, also through the builder
     al = [0.3, 2e-4, math.pi / 4, 1.0, -2.5, 0.0, 100.0] + [H.random_angle(rng) for _ in range(300 if ctx.thorough else 40)]
     for i, a in enumerate(al):
